@@ -127,7 +127,8 @@ def extract():
     facts = {"overrides": override_table(), "cachedEntries": ce, "cacheWriters": cw, "probes": [], "sizeCmp": "?", "flag": "?", "small": "?", "large": "?",
              "rootMethods": [], "rootInvMethods": [], "diagMethods": [], "rootClamps": [], "rootInvClamps": [],
              "symeigClamps": [], "lanczosTol": None, "lanczosBreak": None, "lanczosRounds": -1, "lanczosSmallEig": -1,
-             "settings": {}, "cholUpperViaTranspose": False, "kronRootInvForwardsMethod": False}
+             "settings": {}, "cholUpperViaTranspose": False, "kronRootInvForwardsMethod": False,
+             "pivCholRootReceiver": "?", "postprocessSelect": "?", "postprocessReturn": "?", "postprocessResidual": "?"}
     classes, _ = _classes(os.path.join(REPO, "linear_operator", "operators", "_linear_operator.py"))
     lo = next((c for c in classes if c.name == "LinearOperator"), None)
     if lo is not None:
@@ -157,6 +158,13 @@ def extract():
                 facts[key] = _method_strings(fn)
             if ck:
                 facts[ck] = _clamps(fn)
+        rd = _method(lo, "root_decomposition")
+        if rd is not None:
+            # receiver of `.pivoted_cholesky(...)` in the `method == "pivoted_cholesky"` branch: the operator is densified
+            # first, so the pivots are chosen from the exact diagonal (`_approx_diagonal` of a dense operator)
+            recv = [ast.unparse(n.func.value) for n in ast.walk(rd)
+                    if isinstance(n, ast.Call) and isinstance(n.func, ast.Attribute) and n.func.attr == "pivoted_cholesky"]
+            facts["pivCholRootReceiver"] = recv[0] if len(recv) == 1 else "?" + "|".join(recv)
         chol = _method(lo, "cholesky")
         if chol is not None:
             src = ast.unparse(chol)
@@ -182,6 +190,15 @@ def extract():
             if isinstance(n, ast.For) and isinstance(n.iter, ast.Call) and getattr(n.iter.func, "id", "") == "range" \
                     and len(n.iter.args) == 1 and isinstance(n.iter.args[0], ast.Constant) and isinstance(n.target, ast.Name) and n.target.id == "_":
                 facts["lanczosRounds"] = n.iter.args[0].value
+    pp = next((n for n in ltree.body if isinstance(n, ast.FunctionDef) and n.name == "_postprocess_lanczos_root_inv_decomp"), None)
+    if pp is not None:
+        for n in ast.walk(pp):
+            if isinstance(n, ast.Assign) and "best_solve_index" in ast.unparse(n.targets[0]):
+                facts["postprocessSelect"] = ast.unparse(n.value)
+            if isinstance(n, ast.Assign) and ast.unparse(n.targets[0]) == "inv_root":
+                facts["postprocessReturn"] = ast.unparse(n.value)
+            if isinstance(n, ast.Assign) and ast.unparse(n.targets[0]) == "residuals" and "norm" in ast.unparse(n.value):
+                facts["postprocessResidual"] = ast.unparse(n.value)
     ld = next((n for n in ltree.body if isinstance(n, ast.FunctionDef) and n.name == "lanczos_tridiag_to_diag"), None)
     if ld is not None:
         for n in ast.walk(ld):
@@ -245,6 +262,12 @@ def render(f):
     L.append(f"def symeigDtype : String := {lean_str(s.get('symeig_dtype', '?'))}")
     L.append(f"def cholUpperViaTranspose : Bool := {'true' if f['cholUpperViaTranspose'] else 'false'}")
     L.append(f"def kronRootInvForwardsMethod : Bool := {'true' if f['kronRootInvForwardsMethod'] else 'false'}")
+    L.append("/-- receiver of `.pivoted_cholesky(…)` in `LinearOperator.root_decomposition` -/")
+    L.append(f"def pivCholRootReceiver : String := {lean_str(f['pivCholRootReceiver'])}")
+    L.append("/-- `_postprocess_lanczos_root_inv_decomp`: residual, selection and returned expression -/")
+    L.append(f"def postprocessResidual : String := {lean_str(f['postprocessResidual'])}")
+    L.append(f"def postprocessSelect : String := {lean_str(f['postprocessSelect'])}")
+    L.append(f"def postprocessReturn : String := {lean_str(f['postprocessReturn'])}")
     L += ["", "end LinOp.Generated.C06", ""]
     return "\n".join(L)
 
